@@ -519,6 +519,7 @@ def convert_var_to_effective_lindbladian(
     on_para_eq_constraint: bool = True,
     on_algo_eq_constraint: bool = True,
     on_algo_ineq_constraint: bool = True,
+    mode_proj_order: str = "eq_ineq",
     eps_proj_physical: float = None,
     eps_truncate_imaginary_part: float = None,
 ) -> EffectiveLindbladian:
@@ -558,6 +559,7 @@ def convert_var_to_effective_lindbladian(
         on_para_eq_constraint=on_para_eq_constraint,
         on_algo_eq_constraint=on_algo_eq_constraint,
         on_algo_ineq_constraint=on_algo_ineq_constraint,
+        mode_proj_order=mode_proj_order,
         eps_proj_physical=eps_proj_physical,
         eps_truncate_imaginary_part=eps_truncate_imaginary_part,
     )
